@@ -43,6 +43,11 @@ def cases(tier):
         meshes = ['M1', 'M2', 'M3', 'M4', 'M5', 'M6', 'M7', 'M8', 'M9']
     out = []
     for (a, b) in shapes:
+        if a != b:
+            # the dataset declares its dimensions in the opposite order to the convention's
+            out.append({'family': 'cf1d', 'ny': a, 'nx': b, 'bounds': 'var', 'declare_reversed': True})
+            out.append({'family': 'cf2d', 'ny': a, 'nx': b, 'declare_reversed': True})
+            out.append({'family': 'shoc_standard', 'nj': a, 'ni': b, 'declare_reversed': True})
         out.append({'family': 'cf1d', 'ny': a, 'nx': b, 'bounds': 'var'})
         out.append({'family': 'cf2d', 'ny': a, 'nx': b, 'geometry': 'skew'})
         out.append({'family': 'shoc_simple', 'ny': a, 'nx': b})
